@@ -7,6 +7,7 @@ use tokio::time::timeout;
 use tracing::Instrument;
 
 use dns_types::protocol::types::*;
+use dns_types::zones::types::{Zone, Zones};
 
 use crate::context::Context;
 use crate::local::{resolve_local, LocalResolutionResult};
@@ -187,6 +188,8 @@ async fn resolve_with_nameserver_response<'a>(
     nameserver_response: NameserverResponse,
     question: &Question,
 ) -> Result<Result<ResolvedRecord, ResolutionError>, Nameservers> {
+    let nameserver_response = cut_at_local_authority(context.zones, question, nameserver_response);
+
     match nameserver_response {
         NameserverResponse::Answer { rrs, soa_rr, .. } => {
             tracing::trace!("got recursive answer");
@@ -238,6 +241,34 @@ async fn resolve_with_nameserver_response<'a>(
                 resolve_combined_recursive(context, combined_rrs, cname_question).await;
             Ok(cname_answer)
         }
+    }
+}
+
+/// What an upstream nameserver says about a name that an authoritative local
+/// zone owns is not used: if the `CNAME` chain of an upstream answer leads
+/// into such a name, the answer is cut just before it and becomes a `CNAME`
+/// response, so that the rest of the chain is resolved locally.
+fn cut_at_local_authority(
+    zones: &Zones,
+    question: &Question,
+    response: NameserverResponse,
+) -> NameserverResponse {
+    let rrs = match &response {
+        NameserverResponse::Answer { rrs, .. } | NameserverResponse::CNAME { rrs, .. } => rrs,
+        NameserverResponse::Delegation { .. } => return response,
+    };
+
+    let owned = |name: &DomainName| zones.get(name).is_some_and(Zone::is_authoritative);
+    if let Some(i) = rrs
+        .iter()
+        .position(|rr| rr.name != question.name && owned(&rr.name))
+    {
+        NameserverResponse::CNAME {
+            rrs: rrs[..i].to_vec(),
+            cname: rrs[i].name.clone(),
+        }
+    } else {
+        response
     }
 }
 
